@@ -13,7 +13,8 @@
    step by the oracle of lib/props/c08.py, which found three classes of trees whose print loses
    or breaks something (C06-table-in-inline, C08-empty-container-vanishes, C08-key-decor-in-header). *)
 From TV Require Import Base.Prelude Spec.Ordered Model.Datetime Model.Numbers Model.Tree.
-From TV Require Import Spec.EditSpec Model.Edit Proofs.ContainersOrder Proofs.EditRefineBase Proofs.EditRefine Proofs.EditVerbatim Proofs.EditWF.
+From TV Require Import Spec.EditSpec Model.Edit Proofs.ContainersOrder Proofs.EditRefineBase Proofs.EditRefine Proofs.EditVerbatim Proofs.EditWF Proofs.EditText.
+From TV Require Import Gen.Consts Model.Write Model.Encode.
 From Coq Require Import Sorting.Permutation.
 
 (* ---- decoded content ------------------------------------------------------------------ *)
@@ -113,15 +114,82 @@ Theorem C08_history_wf : forall ops t,
 Proof. exact history_no_none. Qed.
 Print Assumptions C08_history_wf.
 
-(* The remaining gap to the property's wording ("the source text ... is unchanged"): from identical
-   reprs to identical printed fragments.  Model/Encode.v prints an entry from exactly the data in
-   `entry_repr` of the entry and of the dotted tables above it (encode_key_path over their keys,
-   encode_value over own repr + decor, the header from the table's decor), with DEFAULT decor
-   wherever a decor slot is `None`; every slot of a parsed entry is `Some`.  The statement
-       C08_verbatim_text : ... -> fragment (display_document t' tr) (reloc o p) = fragment (display_document t tr) p
-   is not proved: it needs a definition of `fragment` on text, i.e. the print/parse round trip of
-   edited trees (C06).  It is checked on the implementation after every step by the oracle
-   (lib/props/c08.py: `verbatim`), on the re-parsed text. *)
+(* ---- from identical reprs to identical printed bytes (Proofs/EditText.v) -------------------
+   `doc_frag t p` reads off the tree what Model/Encode.v prints for the entry at path p:
+     FLine kp v     a key/value line: the stored keys of the dotted tables above it inside its section
+                    and its own key (repr + decor each), and the WHOLE value (repr, decor, everything inside)
+     FHead hp d a   a [header] / [[header]] line: the stored keys from the root, the header decor, is_array
+   `entry_fragment kp v` / `header_text hp d a first` are the bytes Encode.v prints for them (the body
+   loop and the header of visit_table).  `untouched_frag o p head`: the entry is not the edited one,
+   not inside it, and (for a line) the edit is not inside its value. *)
+
+(* (b) an applicable operation leaves the fragment of every untouched entry identical *)
+Theorem C08_fragment : forall t o t' p e,
+  apply o t = Some t' -> doc_frag t p = Some e -> untouched_frag o p (is_head e) = true ->
+  doc_frag t' (reloc_frag o p) = Some e.
+Proof. exact step_fragment. Qed.
+Print Assumptions C08_fragment.
+
+Theorem C08_history_fragment : forall ops t t' p e,
+  apply_seq ops t = Some t' -> doc_frag t p = Some e -> untouched_frag_all ops p (is_head e) = true ->
+  doc_frag t' (reloc_frag_all ops p) = Some e.
+Proof. exact history_fragment. Qed.
+Print Assumptions C08_history_fragment.
+
+(* (a) the printed document is the concatenation, section by section in printing order
+   (`doc_sections`: nested_tables, positions assigned, stably sorted), of the section's header
+   fragment and the entry fragments of its lines (`section_text`) *)
+Theorem C08_print_sections : forall root trailing,
+  display_document root trailing
+  = decor_prefix (t_decor root) (fst DEFAULT_ROOT_DECOR)
+    ++ sections_text (doc_sections root) true
+    ++ decor_suffix (t_decor root) (snd DEFAULT_ROOT_DECOR)
+    ++ raw_encode trailing [].
+Proof. exact display_document_sections. Qed.
+Print Assumptions C08_print_sections.
+
+(* every line fragment of a tree is printed; every header fragment is printed unless the table is
+   implicit and has no key/value line (Encode.v prints no header then) *)
+Theorem C08_line_printed : forall t p kp v trailing,
+  doc_frag t p = Some (FLine kp v) -> infix (entry_fragment kp v) (display_document t trailing).
+Proof. exact line_printed. Qed.
+Print Assumptions C08_line_printed.
+
+Theorem C08_header_printed : forall t p hp d arr trailing,
+  doc_frag t p = Some (FHead hp d arr) ->
+  exists sec, t_decor sec = d /\
+    (arr = true \/ t_implicit sec && no_lines sec = false ->
+     exists first, infix (header_text hp d arr first) (display_document t trailing)).
+Proof. exact header_printed. Qed.
+Print Assumptions C08_header_printed.
+
+(* together: the text printed after an edit (after any applicable history) contains, byte for byte,
+   the line of every key/value entry the edit does not touch — comments, whitespace, the literal
+   spelling of key and value *)
+Theorem C08_verbatim_text : forall t o t' p kp v trailing trailing',
+  apply o t = Some t' -> doc_frag t p = Some (FLine kp v) -> untouched_frag o p false = true ->
+  infix (entry_fragment kp v) (display_document t trailing) /\
+  infix (entry_fragment kp v) (display_document t' trailing').
+Proof. exact verbatim_text. Qed.
+Print Assumptions C08_verbatim_text.
+
+Theorem C08_history_verbatim_text : forall ops t t' p kp v trailing trailing',
+  apply_seq ops t = Some t' -> doc_frag t p = Some (FLine kp v) -> untouched_frag_all ops p false = true ->
+  infix (entry_fragment kp v) (display_document t trailing) /\
+  infix (entry_fragment kp v) (display_document t' trailing').
+Proof. exact history_verbatim_text. Qed.
+Print Assumptions C08_history_verbatim_text.
+
+(* What is still not proved at text level:
+   - for headers the analogue of C08_verbatim_text follows from C08_fragment + C08_header_printed only
+     up to the `first` flag (default "\n" before a header without explicit decor depends on whether a
+     table was printed before: header_text_explicit shows the bytes do not depend on it when the decor
+     is explicit, as for every parsed header) and up to visibility (an implicit table that loses its
+     last line loses its header line: class C08-empty-container-vanishes);
+   - the fragments occur in the text ("infix"); that they occur in the same relative ORDER is given by
+     C08_print_sections + the order theorems only for lines of one section, not stated as one theorem;
+   - "the printed text is valid TOML and re-parses to abs t'" (the print/parse round trip, C06) — false
+     on the four classes refuted below, checked by the oracle everywhere else. *)
 
 (* ---- examples: a parsed document with comments ------------------------------------------ *)
 From TV Require Import Model.Parse Model.Document Model.Encode Extract.Show.
@@ -277,3 +345,33 @@ x = 1
   intro H. vm_compute in H. discriminate H.
 Qed.
 Print Assumptions C08_text_content_refuted_unpositioned_element.
+
+(* the fragment of the entry `a` of the example document is its line with the comment above it and
+   the comment after it; inserting `c` leaves it untouched *)
+Example ex_fragment :
+  match ex_root with
+  | Some r =>
+    match doc_frag r [SKey (str "a")] with
+    | Some (FLine kp v) => entry_fragment kp v = str "# top
+a = 1 # one
+"
+    | _ => False
+    end
+  | None => False
+  end
+  /\ untouched_frag (OInsert [] (str "c") (PVInt 1)) [SKey (str "a")] false = true
+  /\ untouched_frag (OArrPush [SKey (str "b")] (PVInt 1)) [SKey (str "b")] false = false
+  /\ untouched_frag (OInsert [SKey (str "t")] (str "z") (PVInt 1)) [SKey (str "t")] true = true.
+Proof. vm_compute. repeat split; reflexivity. Qed.
+
+Example ex_header_fragment :
+  match ex_root with
+  | Some r =>
+    match doc_frag r [SKey (str "t")] with
+    | Some (FHead hp d arr) => header_text hp d arr false = str "[t] # header
+"
+    | _ => False
+    end
+  | None => False
+  end.
+Proof. vm_compute. reflexivity. Qed.
